@@ -546,6 +546,10 @@ type refEval struct {
 	kinds    uint8 // which silent spots were consulted (bit per ambKind)
 	rootSat  int
 	buf      [8]int
+	// forceMid: names in the middle of a path are unverified whatever the probe of
+	// the signature stage says (Part D: the harness signs with the last segment's
+	// key only, and the initiator string is not covered by that probe)
+	forceMid bool
 }
 
 func samePrefix(u []int, p []int) bool {
@@ -635,7 +639,7 @@ func (e *refEval) satNode(plen int) bool {
 				return true
 			}
 		}
-		if e.verified[name] || !middleKeysUnverified() {
+		if e.verified[name] || !(e.forceMid || middleKeysUnverified()) {
 			e.ambig = true
 			e.kinds |= 1 << ambPathKey
 			return e.hi
@@ -658,7 +662,7 @@ func reference(c *config, uris [][]int) (bool, bool, int) {
 }
 
 func referenceWith(e *refEval, c *config, uris [][]int) (bool, bool, int) {
-	*e = refEval{rules: c.rules, uris: e.uris[:0]}
+	*e = refEval{rules: c.rules, uris: e.uris[:0], forceMid: e.forceMid}
 	for _, u := range uris {
 		if malformed(u) {
 			continue
